@@ -995,3 +995,67 @@ def r_prox_datafit(A, ctx, scope, rule="R-PROX-DATAFIT"):
             except (Unsupported, ZeroDivisionError) as e:
                 ctx.ob(rule, key, None, detail=f"not lifted: {e}")
     ctx.floor(rule, n, scope.get("floor", 15))
+
+
+# ------------------------------------------------------------------- is_penalized
+def r_ispen(A, ctx, scope, rule="R-ISPEN"):
+    ctx.rule(rule, "is_penalized: a coordinate / group flagged as unpenalised does not enter the penalty's "
+             "own value() (derivative identically zero on both sides of 0), for weights with a zero "
+             "entry; solvers keep such coordinates in every working set and never score them")
+    prog = A.prog
+    n = 0
+    for cls in prog.penalties:
+        ip = cls.find_method("is_penalized")
+        if ip is None or ip.cls.name == "BasePenalty":
+            continue
+        spec = dict(prog.spec_of(cls) or [])
+        where = loc(ip, ip.node)
+        group = "grp_ptr" in spec
+        block = cls.find_method("prox_1feat") is not None
+        for var in _variants(prog, cls):
+            try:
+                if group:
+                    model = BlockModel(A, cls, var, zero_weight=True)
+                    obj = model.self_obj()
+                    n_items = 2
+                    coords = {1: ["w0", "w1"]}                 # group 1 = the analysed block
+                elif block:
+                    continue
+                else:
+                    model = ScalarModel(A, cls, var)
+                    obj = model.self_obj()
+                    if "weights" in obj.attrs:
+                        obj.attrs["weights"] = Vec([sym("wtA"), const(0)])
+                    n_items = 2
+                    coords = {1: ["w0"]}
+            except Unsupported as e:
+                ctx.note(f"{rule}: {cls.name} skipped: {e}")
+                break
+            for wv in (0.7, -0.7):
+                if var.get("positive") and wv < 0:
+                    continue
+                key = f"{cls.fq}::is_penalized::{model.tag}::w={wv}"
+                try:
+                    L, rg = model.lifter({"w0": wv, "w1": wv * 0.6, "wa": 0.37})
+                    flags = L.call_function(ip, [n_items], self_obj=obj)
+                    if group:
+                        val = R(L.call_function(cls.find_method("value"), [model.coef(sym("w0"), sym("w1"))],
+                                                self_obj=obj))
+                    else:
+                        val = R(L.call_function(cls.find_method("value"), [Vec([sym("wa"), sym("w0")])], self_obj=obj))
+                    for item, names in coords.items():
+                        if L.truth(flags[item]):
+                            continue
+                        for nm in names:
+                            d = derivative(val, ("sym", nm))
+                            n += 1
+                            ctx.ob(rule, key + f"::{nm}", d.is_zero(),
+                                   what=f"{model.tag}: item {item} is flagged unpenalised by is_penalized but "
+                                        f"value() depends on its coefficient (d value/d {nm} = {rg.num(d):.4g} at "
+                                        f"{wv}): the solver never scores a coordinate that the objective penalises",
+                                   loc=where)
+                    n += 1
+                    ctx.ob(rule, key, True)
+                except (Unsupported, Raised) as e:
+                    ctx.ob(rule, key, None, detail=f"not lifted: {e}")
+    ctx.floor(rule, n, scope.get("floor", 8))
